@@ -1,7 +1,7 @@
 #!/bin/bash
 # usage: tools/mutS.sh <old> <new> [cfg filter...]
 M=/verif/.work/mut$$
-rm -rf $M; mkdir -p $M; cp -r /verif/.work/fixed/src $M/src
+rm -rf $M; mkdir -p $M; cp -r /repo/src $M/src
 python3 - "$M/src/bldfm/solver.py" "$1" "$2" <<'PY' || { rm -rf $M; exit 1; }
 import sys
 p,old,new=sys.argv[1:4]
